@@ -302,3 +302,197 @@ func enumNumberingAgrees(r *core.Run) {
 		o.Fail("the functions that number enum options disagree about an explicit UNSPECIFIED option (%s): descriptor numbers and the numbers used for in / not_in differ", strings.Join(parts, "; "))
 	}
 }
+
+// valueNamePrefixGuard (R-PROV/valuename): the proto name of an enum value is
+// the option's name, with the enum's prefix put in front *unless the name
+// already begins with it* — an option may be written `FAST` or `MODE_FAST`.
+// For the default prefix (derived from the enum's name) this matters: an
+// unconditional `prefix + name` turns `MODE_FAST` into `MODE_MODE_FAST`. Every
+// place that builds a value name from a prefix that is not the schema's own
+// declared Prefix field therefore sits under the `!strings.HasPrefix(name,
+// prefix)` test — the descriptor builder does, and so must the table that
+// translates the names of in / not_in rules, or a valid rule naming the option
+// as it was declared is rejected as "not found".
+func valueNamePrefixGuard(r *core.Run) {
+	r.Rule("R-PROV/valuename", "in j5convert every concatenation <prefix> + <Enum_Option>.Name (directly or through a local holding the name) whose prefix is not the selector .Prefix of the schema's Enum message — a local, a struct field or a call result, i.e. possibly the derived default prefix — lies in the body of an `if !strings.HasPrefix(<name>, <prefix>)`: a name that already carries the prefix is not prefixed twice")
+	pk := r.P.Pkg(convRel)
+	if pk == nil {
+		r.Fatal("anchor: package %s not found", convRel)
+		return
+	}
+	info := pk.TypesInfo
+	isOptName := func(fd *ast.FuncDecl, e ast.Expr) bool {
+		e = core.Unparen(e)
+		if id, ok := e.(*ast.Ident); ok {
+			// name := schema.Name, possibly re-assigned to prefix+name
+			obj := info.ObjectOf(id)
+			hit := false
+			ast.Inspect(fd.Body, func(m ast.Node) bool {
+				if as, ok := m.(*ast.AssignStmt); ok && len(as.Lhs) == len(as.Rhs) {
+					for i, l := range as.Lhs {
+						if lid, ok := l.(*ast.Ident); ok && info.ObjectOf(lid) == obj {
+							if s, ok := core.Unparen(as.Rhs[i]).(*ast.SelectorExpr); ok && s.Sel.Name == "Name" && strings.HasSuffix(core.TypeStr(info.TypeOf(s.X)), "schema_j5pb.Enum_Option") {
+								hit = true
+							}
+						}
+					}
+				}
+				return true
+			})
+			return hit
+		}
+		s, ok := e.(*ast.SelectorExpr)
+		return ok && s.Sel.Name == "Name" && strings.HasSuffix(core.TypeStr(info.TypeOf(s.X)), "schema_j5pb.Enum_Option")
+	}
+	declared := func(e ast.Expr) bool {
+		s, ok := core.Unparen(e).(*ast.SelectorExpr)
+		return ok && s.Sel.Name == "Prefix" && strings.HasSuffix(core.TypeStr(info.TypeOf(s.X)), "schema_j5pb.Enum")
+	}
+	n := 0
+	core.AllFuncDecls(pk, func(fd *ast.FuncDecl) {
+		if fd.Body == nil {
+			return
+		}
+		var stack []ast.Node
+		ast.Inspect(fd.Body, func(nd ast.Node) bool {
+			if nd == nil {
+				stack = stack[:len(stack)-1]
+				return true
+			}
+			stack = append(stack, nd)
+			b, ok := nd.(*ast.BinaryExpr)
+			if !ok || b.Op != token.ADD || !isOptName(fd, b.Y) {
+				return true
+			}
+			if bt, ok := info.TypeOf(b.X).Underlying().(*types.Basic); !ok || bt.Kind() != types.String {
+				return true
+			}
+			n++
+			o := r.Add("R-PROV/valuename", convRel+"."+core.FuncName(fd)+" | "+core.NormExpr(info, b), b.Pos(), "value name built from a prefix and an option name")
+			if declared(b.X) {
+				o.Auto("the schema's declared prefix as it is")
+				return true
+			}
+			guarded := false
+			for _, anc := range stack {
+				is, ok := anc.(*ast.IfStmt)
+				if !ok || !(is.Body.Pos() <= b.Pos() && b.End() <= is.Body.End()) {
+					continue
+				}
+				u, ok := core.Unparen(is.Cond).(*ast.UnaryExpr)
+				if !ok || u.Op != token.NOT {
+					continue
+				}
+				c, ok := core.Unparen(u.X).(*ast.CallExpr)
+				if ok && core.CalleeName(info, c) == "strings.HasPrefix" && len(c.Args) == 2 && core.NormExpr(info, c.Args[1]) == core.NormExpr(info, b.X) {
+					guarded = true
+				}
+			}
+			if guarded {
+				o.Auto("only when the name does not already begin with the prefix")
+			} else {
+				o.Fail("the prefix (%s, which may be the default derived from the enum's name) is put in front of the option's name unconditionally: an option declared with its full name, MODE_FAST, becomes MODE_MODE_FAST here while the descriptor calls it MODE_FAST — a rule that names the option is rejected as not found", core.NormExpr(info, b.X))
+			}
+			return true
+		})
+	})
+	r.Floor("R-PROV/valuename", 2, "enumBuilder.addValue, enumTypeRef")
+}
+
+// commentPathNumbers (R-CONST/srcpath): descriptions travel as source-code-info
+// locations whose path is made of descriptor.proto field numbers. Each builder
+// function that adds an element to a descriptor list registers the element's
+// comments under {<number of that list's field>, <index>}. The number is that
+// of the field *in the message that owns the list*: enum_type is 5 in
+// FileDescriptorProto and 4 in DescriptorProto. The rule reads the number from
+// the generated struct tag of the field the function appends to and compares
+// it with the first element of the path the function builds.
+func commentPathNumbers(r *core.Run) {
+	r.Rule("R-CONST/srcpath", "in j5convert every function that both appends to a list field of a descriptorpb message (x.F = append(x.F, …)) and builds a comment path []int32{K, …} has K equal to the protobuf field number of F in its own message (read from the generated struct tag): comments are attached to the element that was added, at every nesting level")
+	pk := r.P.Pkg(convRel)
+	if pk == nil {
+		r.Fatal("anchor: package %s not found", convRel)
+		return
+	}
+	info := pk.TypesInfo
+	n := 0
+	core.AllFuncDecls(pk, func(fd *ast.FuncDecl) {
+		if fd.Body == nil {
+			return
+		}
+		// the descriptor list the function appends to
+		fieldNum := int64(-1)
+		fieldName := ""
+		lists := 0
+		ast.Inspect(fd.Body, func(m ast.Node) bool {
+			as, ok := m.(*ast.AssignStmt)
+			if !ok || len(as.Lhs) != 1 || len(as.Rhs) != 1 {
+				return true
+			}
+			sel, ok := core.Unparen(as.Lhs[0]).(*ast.SelectorExpr)
+			if !ok {
+				return true
+			}
+			c, ok := core.Unparen(as.Rhs[0]).(*ast.CallExpr)
+			if !ok || core.CalleeName(info, c) != "builtin.append" {
+				return true
+			}
+			owner := core.NamedOf(info.TypeOf(sel.X))
+			if owner == nil || owner.Obj().Pkg() == nil || !strings.HasSuffix(owner.Obj().Pkg().Path(), "descriptorpb") {
+				return true
+			}
+			st, ok := owner.Underlying().(*types.Struct)
+			if !ok {
+				return true
+			}
+			for i := 0; i < st.NumFields(); i++ {
+				if st.Field(i).Name() != sel.Sel.Name {
+					continue
+				}
+				// protobuf:"bytes,4,rep,name=message_type,…"
+				tag := st.Tag(i)
+				if j := strings.Index(tag, `protobuf:"`); j >= 0 {
+					parts := strings.Split(tag[j+len(`protobuf:"`):], ",")
+					if len(parts) > 1 {
+						var k int64
+						for _, ch := range parts[1] {
+							if ch < '0' || ch > '9' {
+								k = -1
+								break
+							}
+							k = k*10 + int64(ch-'0')
+						}
+						if k > 0 {
+							fieldNum, fieldName = k, owner.Obj().Name()+"."+sel.Sel.Name
+							lists++
+						}
+					}
+				}
+			}
+			return true
+		})
+		if lists != 1 {
+			return
+		}
+		// the comment path literal: []int32{K, …} (K may be a named constant)
+		ast.Inspect(fd.Body, func(m ast.Node) bool {
+			cl, ok := m.(*ast.CompositeLit)
+			if !ok || core.TypeStr(info.TypeOf(cl)) != "[]int32" || len(cl.Elts) < 2 {
+				return true
+			}
+			k, isConst := core.ConstInt(info, cl.Elts[0])
+			if !isConst {
+				return true
+			}
+			n++
+			o := r.Add("R-CONST/srcpath", convRel+"."+core.FuncName(fd)+" | comment path of "+fieldName, cl.Pos(), "source-location path for elements of "+fieldName)
+			if k == fieldNum {
+				o.Auto("%d = field number of %s", k, fieldName)
+			} else {
+				o.Fail("the path starts with %d but %s is field %d of its message: the comments of what this function adds are registered under a path no element owns — the descriptions are missing from the reflected schema and from the printed .proto", k, fieldName, fieldNum)
+			}
+			return true
+		})
+	})
+	r.Floor("R-CONST/srcpath", 4, "addMessage / addEnum / addService of the file, addMessage / addEnum of a message")
+}
